@@ -1855,3 +1855,22 @@ Proof.
   - clear H. induction calls as [|c r IH]; [constructor|]. constructor; [destruct c; exact I | exact IH].
   - exists []. rewrite app_nil_r. split; [reflexivity|]. intros e r a ts tm [].
 Qed.
+
+(* ---------- status: the next cut point is the first undone one ---------- *)
+Lemma find_map_filter {A B} (f : A -> B) (p : A -> bool) (l : list A) :
+  option_map f (find p l) = hd_error (map f (filter p l)).
+Proof.
+  induction l as [|x l IH]; [reflexivity|]. cbn [find filter]. destruct (p x); [reflexivity | exact IH].
+Qed.
+
+Theorem status_next_first_undone K ostride s r :
+  status K ostride s = Ok r ->
+  ss_next r = hd_error (map plan_of (undone K (opt_or ostride (k_default_stride K)) (log s)))
+  /\ ss_count r = nlen (msgs (log s)) /\ ss_inflight r = find_inflight K (log s).
+Proof.
+  unfold status. destruct (opt_or ostride (k_default_stride K) =? 0); [discriminate|].
+  intros H. injection H as <-. cbn [ss_next ss_count ss_inflight]. split; [|auto].
+  rewrite find_map_filter. unfold undone. rewrite cut_points_targets, filter_map_comm, map_map. f_equal.
+  erewrite map_ext by (intros t; apply to_plan_cut_of).
+  f_equal. apply filter_ext. intros t. rewrite cp_done_cut_of. reflexivity.
+Qed.
